@@ -45,6 +45,10 @@ func processPushPopCommon(env *Pass1, operands []ast.Exp, instName string) {
 		// Assume default size or handle error appropriately
 		size = 1 // Default size assumption, might need refinement
 	}
+	// PUSH/POP FS, GS は 2 バイトのオペコード (0F A0 / 0F A1 / 0F A8 / 0F A9)
+	if operandString == "FS" || operandString == "GS" {
+		size = 2
+	}
 	env.LOC += int32(size)
 
 	// Emit the command
